@@ -79,6 +79,9 @@ def generate(seed, stratum, tier):
             'sched': common.draw_sched(rng, grans=('line', 'opcode'), weights=(1, 3), expected_steps=200, policies=('sticky', 'pct'))}
   n = rng.randrange(1, 5)
   sts = [list(rng.choice(prods)) for _ in range(n)]
+  # an item-wise update comes as a little block (store a container, update an item, put a number back): each line is a
+  # statement of its own, so that the lock is looked at right after the item update
+  sts = [[k_, line] for k_, t_ in sts for line in (t_.split('\n') if k_ == 'item-aug' else [t_])]
   if rng.random() < 0.2:
     # one source line executed with different objects: the statement lives in a helper function that is called with
     # instances of the class, of another class with a same-named attribute, and with a plain object
